@@ -223,7 +223,7 @@ class Check(PropertyCheck):
                   "with that key, in recording order`). With the real key inside the model (keyOf = transcription of the field "
                   "selection of _hash for every combination of ignore_content/host/port/params/payload_params/use_headers and "
                   "multipart/urlencoded/raw bodies): key_eq_iff_fields, agreeing_parts_same_key, content_agree_cases, "
-                  "agreeing_request_served_next (after any history a request is served exactly the first pending recording that "
+                  "differing_field_different_key (requests differing in a non-ignored multipart field never share a key), agreeing_request_served_next (after any history a request is served exactly the first pending recording that "
                   "has a response and agrees with it on all non-ignored parts), served_only_if_parts_agree. Tie: random "
                   "histories run through the real addon and through the model twice — once with the equality classes of the "
                   "real _hash as key function, once with the model's own keyOf on the parsed request parts (the model predicts "
